@@ -38,4 +38,21 @@ SPECS = {
  'neq.0': {'src': src('neq.0'), 'never_fails': True, 'post': ['r[0].val() == ' + BOOL('%s != 0' % a0), 'rest_ok(s0, r, 1, 1)']},
  'neq.9': {'src': src('neq.9'), 'never_fails': True, 'post': ['r[0].val() == ' + BOOL('%s != 9' % a0), 'rest_ok(s0, r, 1, 1)']},
  'eqw': {'src': src('eqw'), 'never_fails': True, 'post': ['r[0].val() == ' + BOOL(WEQ), 'rest_ok(s0, r, 0, 1)']},
+ 'lt': {'src': src('lt'), 'never_fails': True, 'post': ['r[0].val() == ' + BOOL('%s < %s' % (a1, a0)), 'rest_ok(s0, r, 2, 1)']},
+ 'lte': {'src': src('lte'), 'never_fails': True, 'post': ['r[0].val() == ' + BOOL('%s <= %s' % (a1, a0)), 'rest_ok(s0, r, 2, 1)']},
+ 'gt': {'src': src('gt'), 'never_fails': True, 'post': ['r[0].val() == ' + BOOL('%s > %s' % (a1, a0)), 'rest_ok(s0, r, 2, 1)']},
+ 'gte': {'src': src('gte'), 'never_fails': True, 'post': ['r[0].val() == ' + BOOL('%s >= %s' % (a1, a0)), 'rest_ok(s0, r, 2, 1)']},
+ 'is_odd': {'src': src('is_odd'), 'never_fails': True, 'post': ['r[0].val() == %s %% 2' % a0, 'rest_ok(s0, r, 1, 1)'],
+    'hints': ['let lo = (s0[0].val() % B32()) as u64; assert(lo & 1 == lo % 2) by (bit_vector); assert((s0[0].val() % B32()) % 2 == s0[0].val() % 2) by (nonlinear_arith) requires B32() == 0x1_0000_0000;']},
+ # ---- extension field F_p[x]/(x^2 - x + 2): [b1, b0, a1, a0, ...] ------------------------------------
+ 'ext2add': {'src': src('ext2add'), 'never_fails': True,
+    'post': ['r[0].val() == fadd(s0[2].val(), s0[0].val()) && r[1].val() == fadd(s0[3].val(), s0[1].val())', 'rest_ok(s0, r, 4, 2)']},
+ 'ext2sub': {'src': src('ext2sub'), 'never_fails': True,
+    'post': ['r[0].val() == fsub(s0[2].val(), s0[0].val()) && r[1].val() == fsub(s0[3].val(), s0[1].val())', 'rest_ok(s0, r, 4, 2)']},
+ 'ext2neg': {'src': src('ext2neg'), 'never_fails': True,
+    'post': ['r[0].val() == fneg(s0[0].val()) && r[1].val() == fneg(s0[1].val())', 'rest_ok(s0, r, 2, 2)']},
+ # c1 = (a0 + a1) * (b0 + b1) - a0 * b0,  c0 = a0 * b0 - 2 * a1 * b1   (docs/src/design/stack/field_ops.md, EXT2MUL)
+ 'ext2mul': {'src': src('ext2mul'), 'never_fails': True,
+    'post': ['r[0].val() == fsub(fmul(fadd(s0[1].val(), s0[0].val()), fadd(s0[2].val(), s0[3].val())), fmul(s0[1].val(), s0[3].val()))',
+             'r[1].val() == fsub(fmul(s0[1].val(), s0[3].val()), fmul(fmul(2, s0[0].val()), s0[2].val()))', 'rest_ok(s0, r, 4, 2)']},
 }
